@@ -5,6 +5,7 @@ kept only if the domain test `g < threshold` passes, so every chain state stays 
 threshold of its level).
 -/
 import FFVerif.Model.Subset
+import FFVerif.Model.Sampler
 namespace FF
 open Subset
 
@@ -232,5 +233,88 @@ theorem C13_pf_le_one (nc fuel maxSub : Nat) (buf : List Int) (oracle : List (Li
 
 /-- non-vacuity: `N = 4`, `p0 = 1/2`: first level threshold 1, second level reaches 0 with 3 failures: pf = 1/2 · 3/4 -/
 example : pf 1 2 4 (run 2 5 6 [3, 1, 0, 2] [[[-1], [0]]]) = (3, 8) := by decide
+
+/-! ### the chain contract from the sampler model (composition of C14 and C13) -/
+
+/-- the domain function handed to the component-wise sampler by `subsetSimulation`
+(`sampleDomainFunc`): a move to a different point is kept iff the limit state there is below the level -/
+def subsetDomain (g : List Int → Int) (thr : Int) (cur nxt : List Int) : Bool :=
+  decide (nxt ≠ cur) && decide (g nxt < thr)
+
+/-- the successive states of one chain: the component-wise sampler step of `Model/Sampler.lean` iterated
+over the scripted proposals and uniform draws -/
+def chainStates (fs : List (Int → Int)) (g : List Int → Int) (thr : Int) :
+    List Int → List (List Int × List (Nat × Nat)) → Except String (List (List Int))
+  | _, [] => .ok []
+  | cur, (cands, us) :: rest =>
+    match Sampler.auStep fs (subsetDomain g thr) cur cands us with
+    | .error e => .error e
+    | .ok nxt =>
+      match chainStates fs g thr nxt rest with
+      | .error e => .error e
+      | .ok states => .ok (nxt :: states)
+
+/-- one step keeps the limit-state value at or below the level -/
+theorem auStep_contract (fs : List (Int → Int)) (g : List Int → Int) (thr : Int) (cur cands : List Int)
+    (us : List (Nat × Nat)) (nxt : List Int) (hcur : g cur ≤ thr)
+    (h : Sampler.auStep fs (subsetDomain g thr) cur cands us = .ok nxt) : g nxt ≤ thr := by
+  unfold Sampler.auStep at h
+  cases hA : Sampler.auAssemble fs cur cands us with
+  | error e => rw [hA] at h; cases h
+  | ok a =>
+    rw [hA] at h
+    simp only [bind, Except.bind, pure, Except.pure, Except.ok.injEq] at h
+    by_cases hd : subsetDomain g thr cur a = true
+    · rw [if_pos hd] at h
+      subst h
+      unfold subsetDomain at hd
+      simp only [Bool.and_eq_true, decide_eq_true_eq] at hd
+      omega
+    · rw [if_neg hd] at h
+      subst h
+      exact hcur
+
+/-- **the sampler contract**: every state of a chain started at a seed at or below the level stays at or below it -/
+theorem chain_contract (fs : List (Int → Int)) (g : List Int → Int) (thr : Int) :
+    ∀ (steps : List (List Int × List (Nat × Nat))) (cur : List Int) (states : List (List Int)),
+      g cur ≤ thr → chainStates fs g thr cur steps = .ok states → ∀ s ∈ states, g s ≤ thr := by
+  intro steps
+  induction steps with
+  | nil => intro cur states _ h s hs; simp [chainStates] at h; subst h; cases hs
+  | cons st rest ih =>
+    intro cur states hcur h s hs
+    obtain ⟨cands, us⟩ := st
+    unfold chainStates at h
+    cases hstep : Sampler.auStep fs (subsetDomain g thr) cur cands us with
+    | error e => rw [hstep] at h; cases h
+    | ok nxt =>
+      rw [hstep] at h
+      simp only [] at h
+      cases hrest : chainStates fs g thr nxt rest with
+      | error e => rw [hrest] at h; cases h
+      | ok sts =>
+        rw [hrest] at h
+        simp only [Except.ok.injEq] at h
+        subst h
+        have hn := auStep_contract fs g thr cur cands us nxt hcur hstep
+        rcases List.mem_cons.mp hs with rfl | hmem
+        · exact hn
+        · exact ih nxt sts hn hrest s hmem
+
+/-- **nestedness, end to end on the models**: when the chains of a level are runs of the component-wise sampler model
+with the domain function of `subsetSimulation`, started at seeds at or below the level's threshold, and renew the whole
+level, every sample of the next level is at or below that threshold -/
+theorem C13_nested_from_sampler (nc : Nat) (buf : List Int) (fs : List (Int → Int)) (g : List Int → Int)
+    (runs : List (List Int × List (List Int × List (Nat × Nat)) × List (List Int)))
+    (hnc : 1 ≤ nc) (hlen : nc ≤ buf.length)
+    (hfill : nc + ((runs.map (fun r => r.2.2.map g)).flatten).length = buf.length)
+    (hseed : ∀ r ∈ runs, g r.1 ≤ (levelOf nc buf).threshold)
+    (hrun : ∀ r ∈ runs, chainStates fs g (levelOf nc buf).threshold r.1 r.2.1 = .ok r.2.2) :
+    ∀ v ∈ nextBuffer nc (levelOf nc buf).values (runs.map (fun r => r.2.2.map g)), v ≤ (levelOf nc buf).threshold := by
+  apply C13_nested nc buf _ hnc hlen hfill
+  intro ch hch v hv
+  obtain ⟨r, hr, rfl⟩ := List.mem_map.mp hch
+  obtain ⟨s, hs, rfl⟩ := List.mem_map.mp hv
+  exact chain_contract fs g _ r.2.1 r.1 r.2.2 (hseed r hr) (hrun r hr) s hs
 
 end FF
